@@ -115,6 +115,8 @@ func server() *srv {
 			return c.SendString("ok")
 		})
 		go func() { _ = app.Listener(s.ln, fiber.ListenConfig{DisableStartupMessage: true}) }()
+		// requests that name no client use the package's default client: it reaches the same server
+		client.C().SetDial(func(string) (net.Conn, error) { return s.ln.Dial() })
 		theSrv = s
 	})
 	return theSrv
@@ -318,6 +320,17 @@ func checkFidelity(c Fidelity) vk.Verdict {
 		if fmt.Sprintf("%+v", a) != fmt.Sprintf("%+v", b) {
 			return vk.Failf("the same configuration produced two different requests\n first  %+v\n second %+v", a, b)
 		}
+	}
+	// a request that names no client afterwards (its object comes from the pool the configured requests went back to):
+	// it carries the default client's settings and nothing of the client configured above
+	r2 := client.AcquireRequest()
+	resp2, err2 := r2.Get("http://example.com/follow-up")
+	if err2 != nil {
+		return vk.Failf("follow-up request through the default client failed: %v", err2)
+	}
+	resp2.Close()
+	if f := s.got; f.Path != "/follow-up" || f.UA != "fiber" || f.Referer != "" || len(f.Query)+len(f.Headers)+len(f.Cookies) != 0 {
+		return vk.Failf("a request that names no client, made after the configured one, arrived as %+v - want the default client's plain request (configured client was %+v)", f, c)
 	}
 	nt := (c.CUA != "" && c.RUA != "") || (c.CRef != "" && c.RRef != "") || (c.CPath != "" && c.RPath != "")
 	for _, kv := range c.RCookie {
